@@ -2,23 +2,29 @@
 import itertools, os, re
 import common, extract, libgen
 
-LEAN_MODULE = ["ESRVerif.Props.C01", "ESRVerif.Props.C01b"]
+LEAN_MODULE = ["ESRVerif.Props.C01", "ESRVerif.Props.C01b", "ESRVerif.Props.C01c"]
 LEVEL = "proof"
 LEVEL_TEXT = ("Lean theorems, unbounded in the complexity n and in the basis: check_tree succeeds iff the arity string is the prefix "
               "form of a unary-binary tree; failed-prefix pruning is sound; the extracted pre-filter rules are necessary conditions; "
               "get_allowed_shapes(n) equals, as an ordered list, the lexicographic product filtered by validity (no shape missing, "
               "none extra, none twice); shape_to_functions emits exactly the labellings of a shape with parameters renumbered in order "
-              "of appearance, and generate_equations' printed count equals the number of emitted trees. The model is tied to the code by exhaustive "
-              "correspondence (all 3^n strings, all shapes, all trees of the six regenerated bases and PRNG sub-bases) and by an "
+              "of appearance, and generate_equations' printed count equals the number of emitted trees; for every well-formed basis "
+              "(classes duplicate-free and pairwise disjoint, 'a' only nullary, no label of the form a<digits>; decided by Lean for every "
+              "regenerated shipped basis) the emitted list has no duplicates, so it is a duplicate-free enumeration of exactly the "
+              "renumbered labellings of the trees with n nodes (generate_nodup, generate_enumerates). check_tree is modelled twice: with a stack of open "
+              "binary ancestors (what the theorems above are about) and statement by statement with parent-pointer climb, fuel and the "
+              "post-loop None-in-lefts/rights tests on the arrays; checkTreePtr_eq proves the two equal on every string (success, "
+              "part_considered, the three pointer arrays, raise; fuel never runs out). The models are tied to the code by exhaustive "
+              "correspondence (all 3^n strings against both check_tree models, all shapes, all trees of the six regenerated bases and PRNG sub-bases) and by an "
               "independent recursive enumerator run against the real code.")
-TECHNIQUE = "Lean 4 proof (induction over strings/trees) on a hand model of check_tree/get_allowed_shapes/shape_to_functions + regenerated tables + exhaustive model-code correspondence"
-RULE = ("check_tree: every string over {0,1,2} up to the tier length (distinct = the string; non-trivial = length>=2); shapes: every n up to the bound; "
+TECHNIQUE = "Lean 4 proof (induction over strings/trees; loop invariant relating the stack to the parent-pointer arrays) on hand models of check_tree (stack and pointer level)/get_allowed_shapes/shape_to_functions + regenerated tables + exhaustive model-code correspondence"
+RULE = ("check_tree: every string over {0,1,2} up to the tier length, compared with the stack model and the pointer-level model (distinct = the string; non-trivial = length>=2); shapes: every n up to the bound; "
         "labelling: every shape x basis (six shipped + PRNG sub-bases) with at most the tier's tree budget (distinct = (shape,basis)); "
         "files: generated libraries under 1 and 3 ranks")
 EXPLANATION = LEVEL_TEXT
-TRUSTED = ["hand models ESRVerif/Model/Shape.lean, Labeling.lean (stack instead of parent-pointer climb; tied by exhaustive correspondence incl. the three pointer arrays)",
+TRUSTED = ["hand models ESRVerif/Model/Shape.lean, ShapePtr.lean, Labeling.lean (ShapePtr mirrors check_tree's parent-pointer climb statement by statement and is proved equal to the stack model; both tied by exhaustive correspondence incl. the three pointer arrays)",
            "harness/extractors/shape.py (pre-filter rules, bases)", "numpy U100 label truncation not modelled"]
-ASSUMPTIONS = ["labels shorter than 100 characters", "a labelled tree is identified with (valid shape, prefix-order label list consistent with the arities)"]
+ASSUMPTIONS = ["labels shorter than 100 characters", "duplicate-freeness is proved for well-formed bases (Labeling.Basis.WellFormed: classes duplicate-free and pairwise disjoint, 'a' only nullary, no label of the form a<digits>); every basis exercised is checked against that predicate by the Lean model", "a labelled tree is identified with (valid shape, prefix-order label list consistent with the arities)"]
 MODELLED = ["generator.py:check_tree", "generator.py:get_allowed_shapes", "generator.py:shape_to_functions", "generator.py:generate_equations"]
 
 
@@ -68,11 +74,12 @@ def _bs(c):
 def _corr_check_tree(ctx, nmax):
     import numpy as np
     from esr.generation import generator as g
-    ops, real = [], []
+    ops, ops_ptr, real = [], [], []
     valid = {n: set(_trees(n)) for n in range(1, nmax + 1)}
     for n in range(1, nmax + 1):
         for s in itertools.product((0, 1, 2), repeat=n):
             ops.append("ct " + "".join(map(str, s)))
+            ops_ptr.append("ctp " + "".join(map(str, s)))
             try:
                 succ, part, tree = g.check_tree(np.array(s, dtype=int))
                 real.append("%d %s %s %s %s" % (int(bool(succ)), "-" if part is None else "".join(str(int(x)) for x in part),
@@ -88,8 +95,16 @@ def _corr_check_tree(ctx, nmax):
     bad = [(o, a, b) for o, a, b in zip(ops, real, out) if a != b]
     for o, a, b in bad[:5]:
         ctx.disagree("corr:check_tree", "%s: code=%s model=%s" % (o, a, b))
-    ctx.sample(dict(op=ops[-7], code=real[-7], model=out[-7]))
-    return len(ops), len(bad)
+    # pointer-level model (Model/ShapePtr.lean: parent-pointer climb as the Python is written; "fuel" = climb did not end)
+    outp = common.model(ops_ptr)
+    badp = [(o, a, b) for o, a, b in zip(ops_ptr, real, outp) if a != b]
+    for o, a, b in badp[:5]:
+        ctx.disagree("corr:check_tree_ptr", "%s: code=%s pointer-model=%s" % (o, a, b))
+    ctx.sample(dict(op=ops[-7], code=real[-7], model=out[-7], pointer_model=outp[-7]))
+    ctx.extra["check_tree_models"] = dict(strings=len(ops), stack_model_mismatches=len(bad), pointer_model_mismatches=len(badp),
+                                          pointer_model_raises=sum(1 for x in outp if x == "err"), code_raises=sum(1 for x in real if x == "err"),
+                                          pointer_model_out_of_fuel=sum(1 for x in outp if x == "fuel"))
+    return (len(ops), len(bad)), (len(ops_ptr), len(badp))
 
 
 def _corr_shapes(ctx, nmax):
@@ -144,7 +159,14 @@ def _corr_label(ctx, nmax, budget, bases):
                         cnt *= len(b[a])
                     if cnt > budget:
                         continue
-                    all_fun, all_tree, _, _, _ = g.shape_to_functions(np.array(s, dtype=int), b)
+                    try:
+                        all_fun, all_tree, _, _, _ = g.shape_to_functions(np.array(s, dtype=int), b)
+                    except Exception as e:                                        # a valid shape must be labelled, not crash
+                        ctx.case(("label", s, tuple(map(tuple, b))), nontrivial=cnt >= 2, n=max(cnt, 1))
+                        ctx.fail("shape_to_functions:%s:%s" % ("".join(map(str, s)), name),
+                                 "shape %s basis %s: shape_to_functions raised %r, so none of its %d trees is emitted" % (s, b, e, cnt),
+                                 dict(kind="label", s=list(s), basis=b))
+                        continue
                     got = [tuple(str(x) for x in t) for t in all_tree]
                     ops.append("label %s %s %s %s" % ("".join(map(str, s)), _bs(b[0]), _bs(b[1]), _bs(b[2])))
                     real.append("-" if not got else ";".join(",".join(t) for t in got))
@@ -165,6 +187,27 @@ def _corr_label(ctx, nmax, budget, bases):
     if ops:
         ctx.sample(dict(op=ops[len(ops) // 3], code=real[len(ops) // 3][:160]))
     return len(ops), len(bad)
+
+
+def _wellformed(ctx, bases):
+    """hypothesis of generate_nodup: the Lean model decides Basis.WellFormed for every basis exercised; an independent
+    Python reading of the same predicate must agree (a basis outside it is reported, not silently covered by the theorem)"""
+    ops = ["wf %s %s %s" % (_bs(b[0]), _bs(b[1]), _bs(b[2])) for _, b in bases]
+    out = common.model(ops)
+    nbad = 0
+    notwf = []
+    for (name, b), o in zip(bases, out):
+        alll = b[0] + b[1] + b[2]
+        py = (len(set(alll)) == len(alll) and "a" not in b[1] and "a" not in b[2]
+              and not any(re.fullmatch(r"a[0-9]+", l) for l in alll))
+        if o != ("1" if py else "0"):
+            nbad += 1
+            ctx.disagree("corr:well_formed", "basis %s %s: model says %s, python predicate says %s" % (name, b, o, py))
+        if o != "1":
+            notwf.append([name, b])
+    ctx.extra["bases_not_well_formed"] = notwf          # for these generate_nodup does not apply; the oracle still checks duplicates
+    ctx.extra["bases_checked_well_formed"] = len(bases) - len(notwf)
+    return len(ops), nbad
 
 
 def _corr_files(ctx, runs):
@@ -215,9 +258,11 @@ def run(ctx):
     from extractors import shape as shx
     shipped = [(n, b) for n, b, _ in shx.bases(ctx.stage)]
     res = {}
-    res["check_tree"] = _corr_check_tree(ctx, 10 if deep else 8)
+    res["check_tree"], res["check_tree_ptr"] = _corr_check_tree(ctx, 10 if deep else 8)
     res["get_allowed_shapes"] = _corr_shapes(ctx, 10 if deep else 9)
-    res["shape_to_functions"] = _corr_label(ctx, 6 if deep else 5, 30000 if deep else 4000, shipped + _sub_bases(ctx, 12 if deep else 5))
+    bases = shipped + _sub_bases(ctx, 12 if deep else 5)
+    res["shape_to_functions"] = _corr_label(ctx, 6 if deep else 5, 30000 if deep else 4000, bases)
+    res["well_formed"] = _wellformed(ctx, bases)
     res["files"] = _corr_files(ctx, [("core_maths", 5, 1), ("core_maths", 4, 3), ("ext_maths", 4, 2)] if deep else [("core_maths", 4, 1), ("core_maths", 3, 3)])
     ctx.extra["corr_obligations"] = len(res)
     ctx.extra["corr_discharged"] = sum(1 for v in res.values() if v[1] == 0)
@@ -243,6 +288,9 @@ def replay(ctx, data):
         g.find_additional_trees = lambda tree, labels, basis: ([tree], [labels])
         try:
             _, all_tree, _, _, _ = g.shape_to_functions(np.array(rp["s"], dtype=int), rp["basis"])
+        except Exception as e:
+            print("shape_to_functions raised %r" % (e,))
+            return False
         finally:
             g.find_additional_trees = save
         got = [tuple(str(x) for x in t) for t in all_tree]
